@@ -328,6 +328,15 @@ def fo_args(S, *, ident=True, wide=True):
             for r in bconcl:
                 add(arg(r, (p, q)))
         if ident:
+            # a fork (disjunctive premise) beside an identity and a literal: what is on one side of the fork must not leak to the other
+            Fa_, Fb_, Ga_, Gb_ = lits[0], lits[1], lits[2], lits[3]
+            forks = [Fa_ | A, Fa_ | Ga_] + ([] if small_mode else [A | Fa_, ~Fa_ | Ga_])
+            for dj in forks:
+                for idn in (Predicated(IDENT, (a, b)), Predicated(IDENT, (b, a))):
+                    for lt in ((~Fb_, ~Gb_) if small_mode else (~Fb_, ~Gb_, Fb_)):
+                        for r in ((B,) if small_mode else (B, Gb_)):
+                            for prem in itertools.permutations((dj, idn, lt)):
+                                add(arg(r, prem))
             # an identity beside two predications (substitution order / blocking shapes)
             idents = [Predicated(IDENT, (a, b)), Predicated(IDENT, (b, a))]
             l4 = lits[:4] if small_mode else lits
